@@ -54,59 +54,58 @@ last30([_|T],X) :- last30(T,X).
 sum30([],S,S).
 sum30([X|T],A,S) :- A1 is A+X, sum30(T,A1,S).
 probe30(N,A,X,Ys,At,C) :- mk30(50,L), len30(L,0,N), atom_length(abc,A), X is N*A, findall(Y,member(Y,[a,b]),Ys), atom_chars(At,"xyz"), copy_term(f(V,V,1),C).
+add30(X,A0,A) :- A is A0+X.
+mkf30(f(Y,Y)).
 dig30(0,[]) :- !.
 dig30(N,[C|T]) :- D is N mod 10, number_codes(D,[Cd]), char_code(C,Cd), M is N-1, dig30(M,T).
 """
 
-USES = ["lists", "charsio", "format", "assoc", "iso_ext", "between", "dcgs", "lambda"]
+USES = ["lists", "charsio", "format", "assoc", "iso_ext", "between", "dcgs"]
 
 PROBE = "probe30(N,A,X,Ys,At,C)."
 PROBE_EXPECT = "{A=3,At='xyz',C='f'(_G0,_G0,1),N=50,X=150,Ys=\"ab\"} ;; ..."
 
 # name, goal (binds R to a small deterministic result), subsystem
 TEMPLATES = [
-    ("list_build", "mk30(400000,L), len30(L,0,R)", "list construction (put_list/unify_* in compiled code)"),
-    ("length_var", "length(L,500000), len30(L,0,R)", "length/2 creating a list of fresh variables"),
-    ("tree", "tree30(18,T), T = n(A,_), A = n(_,_), R = ok", "structure construction (put_structure)"),
-    ("copy_term", "mk30(250000,L), copy_term(L,L2), len30(L2,0,R)", "copy_term/2 (copier.rs)"),
-    ("copy_attr", "length(L,150000), copy_term(L,L2,Gs), len30(L2,0,R0), Gs = [], R = R0", "copy_term/3"),
-    ("findall_ints", "findall(X, between(1,300000,X), L), len30(L,0,R)", "findall/3: lifted heap + copy back"),
-    ("findall_terms", "findall(f(X,Y,[X,Y]), (between(1,80000,X), Y is X*2), L), len30(L,0,R)", "findall/3 with compound results"),
-    ("findall4", "findall(X, between(1,200000,X), L, [z]), len30(L,0,R)", "findall/4"),
-    ("setof", "setof(X, between(1,150000,X), L), len30(L,0,R)", "setof/3 (findall + sort)"),
-    ("bagof", "bagof(X-Y, (between(1,60000,X), Y = a), L), len30(L,0,R)", "bagof/3"),
-    ("assertz_big", "mk30(20000,L), assertz(big30(L)), big30(L2), len30(L2,0,R), retract(big30(_))", "assertz of a big clause, clause retrieval"),
-    ("assertz_many", "as30(30000), findall(X, f30(X), L), len30(L,0,R), retractall(f30(_))", "many small assertz + findall over them"),
-    ("atom_chars_out", "dbl30(19,abcdefgh,A), atom_chars(A,Cs), atom_length(A,R), Cs = [a|_]", "atom_chars/2 atom -> partial string"),
-    ("atom_chars_in", "dbl30(18,abcdefgh,A), atom_chars(A,Cs), atom_chars(B,Cs), atom_length(B,R)", "atom_chars/2 chars -> atom"),
-    ("atom_codes_out", "dbl30(16,abcdefgh,A), atom_codes(A,Cs), len30(Cs,0,R)", "atom_codes/2 (code list)"),
-    ("number_chars_out", "_X is 7^900000, number_chars(X,Cs), length(Cs,R)", "number_chars/2 of a bignum (arena + heap string)"),
-    ("number_chars_in", "dig30(200000,Cs), number_chars(X,['1'|Cs]), R is X mod 1000", "number_chars/2 parsing a long digit list"),
-    ("number_codes_out", "_X is 3^400000, number_codes(X,Cs), len30(Cs,0,R)", "number_codes/2"),
-    ("bignum_arith", "_X is 7^300000, Y is X*X+X, R is Y mod 1000003", "big integer arithmetic (arena, not the heap)"),
-    ("string_append", "dbl30(17,abcdefgh,A), atom_chars(A,Cs), append(Cs,Cs,Cs2), length(Cs2,R)", "append/3 on long strings"),
-    ("sort", "pairs30(200000,L), sort(L,L2), len30(L2,0,R)", "sort/2"),
-    ("msort", "pairs30(200000,L), msort(L,L2), len30(L2,0,R)", "msort/2"),
-    ("keysort", "pairs30(200000,L), keysort(L,L2), len30(L2,0,R)", "keysort/2"),
-    ("sort4", "pairs30(150000,L), sort(1,@>=,L,L2), len30(L2,0,R)", "sort/4"),
-    ("read_chars", "mk30(60000,L), write_term_to_chars(L,[],Cs0), append(Cs0,\" .\",Cs), read_from_chars(Cs,T), len30(T,0,R)", "write_term_to_chars + read_from_chars (parser -> heap)"),
-    ("format_chars", "mk30(60000,L), phrase(format_(\"~w and ~a\", [L,x]), Cs), length(Cs,R)", "format_//2 to chars"),
-    ("univ", "length(L,300000), T =.. [f|L], functor(T,_,R)", "=../2 building a big structure"),
-    ("functor_big", "functor(T,f,400000), T =.. [_|L], len30(L,0,R)", "functor/3 + =../2 decomposing"),
-    ("term_variables", "length(L,300000), term_variables(f(L,L),Vs), len30(Vs,0,R)", "term_variables/2"),
-    ("lists_append", "mk30(200000,L), append(L,[x],L2), last30(L2,X), X == x, len30(L2,0,R)", "library(lists) append/3"),
-    ("reverse", "mk30(250000,L), reverse(L,L2), L2 = [R|_]", "reverse/2"),
+    ("list_build", "mk30(300000,L), len30(L,0,R)", "list construction (put_list/unify_* in compiled code)"),
+    ("length_var", "length(L,400000), len30(L,0,R)", "length/2 creating a list of fresh variables"),
+    ("tree", "tree30(17,T), T = n(A,_), A = n(_,_), R = ok", "structure construction (put_structure)"),
+    ("copy_term", "mk30(150000,L), copy_term(L,L2), len30(L2,0,R)", "copy_term/2 (copier.rs)"),
+    ("copy_attr", "length(L,100000), copy_term(L,L2,Gs), len30(L2,0,R0), Gs = [], R = R0", "copy_term/3"),
+    ("findall_ints", "findall(X, between(1,100000,X), L), len30(L,0,R)", "findall/3: lifted heap + copy back"),
+    ("findall_terms", "findall(f(X,Y,[X,Y]), (between(1,30000,X), Y is X*2), L), len30(L,0,R)", "findall/3 with compound results"),
+    ("findall4", "findall(X, between(1,100000,X), L, [z]), len30(L,0,R)", "findall/4"),
+    ("setof", "setof(X, between(1,60000,X), L), len30(L,0,R)", "setof/3 (findall + sort)"),
+    ("bagof", "bagof(X-Y, (between(1,30000,X), Y = a), L), len30(L,0,R)", "bagof/3"),
+    ("assertz_big", "retractall(big30(_)), mk30(20000,L), assertz(big30(L)), big30(L2), len30(L2,0,R), retract(big30(_))", "assertz of a big clause, clause retrieval"),
+    ("assertz_many", "retractall(f30(_)), as30(8000), findall(X, f30(X), L), len30(L,0,R), retractall(f30(_))", "many small assertz + findall over them"),
+    ("atom_chars_out", "dbl30(17,abcdefgh,A), atom_chars(A,Cs), atom_length(A,R), Cs = [a|_]", "atom_chars/2 atom -> partial string"),
+    ("atom_chars_in", "dbl30(17,abcdefgh,A), atom_chars(A,Cs), atom_chars(B,Cs), atom_length(B,R)", "atom_chars/2 chars -> atom"),
+    ("atom_codes_out", "dbl30(15,abcdefgh,A), atom_codes(A,Cs), len30(Cs,0,R)", "atom_codes/2 (code list)"),
+    ("number_chars_out", "X is 7^600000, number_chars(X,Cs), length(Cs,R)", "number_chars/2 of a bignum (arena + heap string)"),
+    ("number_chars_in", "dig30(100000,Cs), number_chars(X,['1'|Cs]), R is X mod 1000", "number_chars/2 parsing a long digit list"),
+    ("number_codes_out", "X is 3^300000, number_codes(X,Cs), len30(Cs,0,R)", "number_codes/2"),
+    ("bignum_arith", "X is 7^300000, Y is X*X+X, R is Y mod 1000003", "big integer arithmetic (arena, not the heap)"),
+    ("string_append", "dbl30(16,abcdefgh,A), atom_chars(A,Cs), append(Cs,Cs,Cs2), length(Cs2,R)", "append/3 on long strings"),
+    ("sort", "pairs30(100000,L), sort(L,L2), len30(L2,0,R)", "sort/2"),
+    ("keysort", "pairs30(100000,L), keysort(L,L2), len30(L2,0,R)", "keysort/2"),
+    ("read_chars", "mk30(30000,L), write_term_to_chars(L,[],Cs0), append(Cs0,\" .\",Cs), read_from_chars(Cs,T), len30(T,0,R)", "write_term_to_chars + read_from_chars (parser -> heap)"),
+    ("format_chars", "mk30(40000,L), phrase(format_(\"~w and ~a\", [L,x]), Cs), length(Cs,R)", "format_//2 to chars"),
+    ("univ", "length(L,200), findall(T, (between(1,1500,_), T =.. [f|L]), Ts), len30(Ts,0,R)", "=../2 building structures of arity 200"),
+    ("term_variables", "length(L,200000), term_variables(f(L,L),Vs), len30(Vs,0,R)", "term_variables/2"),
+    ("lists_append", "mk30(150000,L), append(L,[x],L2), last30(L2,X), X == x, len30(L2,0,R)", "library(lists) append/3"),
+    ("reverse", "mk30(150000,L), reverse(L,L2), L2 = [R|_]", "reverse/2"),
     ("maplist", "length(L,200000), maplist(=(x),L), len30(L,0,R)", "maplist/2"),
-    ("foldl", "mk30(150000,L), foldl([X,A0,A]>>(A is A0+X),L,0,R)", "foldl/4 with a lambda (call/N, copy_term per call)"),
-    ("assoc", "pairs30(40000,L), list_to_assoc(L,As), put_assoc(k,As,v,As2), get_assoc(k,As2,R)", "library(assoc) AVL trees"),
-    ("bb", "mk30(200000,L), bb_put(k30,L), bb_get(k30,L2), len30(L2,0,R)", "bb_put/bb_get (global variable copy)"),
-    ("throw_big", "mk30(200000,L), catch(throw(b(L)),b(L2),true), len30(L2,0,R)", "throw/1 with a big ball (ball heap) caught by catch/3"),
-    ("nested_findall", "findall(L1, (between(1,300,I), findall(J, between(1,I,J), L1)), Ls), len30(Ls,0,R)", "nested findall/3"),
-    ("phrase_seq", "mk30(150000,L), phrase(seq(L2),L), len30(L2,0,R)", "DCG seq//1"),
-    ("numlist_sum", "findall(X, between(1,250000,X), L), sum30(L,0,R)", "findall then a consumer"),
-    ("call_n", "length(L,100000), maplist([X]>>(X = f(Y,Y)),L), len30(L,0,R)", "lambda + call/N building terms"),
-    ("atom_concat", "dbl30(21,abcdefgh,A), atom_length(A,R)", "atom_concat/3 doubling (atom table, not the heap)"),
-    ("sub_chars", "dbl30(17,abcdefgh,A), atom_chars(A,Cs), length(P,500000), append(P,S,Cs), length(S,R)", "splitting a long string (partial-string traversal)"),
+    ("foldl", "mk30(100000,L), foldl(add30,L,0,R)", "foldl/4 (call/N)"),
+    ("assoc", "findall(K-K, between(1,20000,K), L), list_to_assoc(L,As), put_assoc(k,As,v,As2), get_assoc(k,As2,R)", "library(assoc) AVL trees"),
+    ("bb", "mk30(150000,L), bb_put(k30,L), bb_get(k30,L2), len30(L2,0,R)", "bb_put/bb_get (global variable copy)"),
+    ("throw_big", "mk30(150000,L), catch(throw(b(L)),b(L2),true), len30(L2,0,R)", "throw/1 with a big ball (ball heap) caught by catch/3"),
+    ("nested_findall", "findall(L1, (between(1,400,I), findall(J, between(1,I,J), L1)), Ls), len30(Ls,0,R)", "nested findall/3"),
+    ("phrase_seq", "mk30(100000,L), phrase(seq(L2),L), len30(L2,0,R)", "DCG seq//1"),
+    ("numlist_sum", "findall(X, between(1,100000,X), L), sum30(L,0,R)", "findall then a consumer"),
+    ("call_n", "length(L,100000), maplist(mkf30,L), len30(L,0,R)", "maplist + call/N building terms"),
+    ("atom_concat", "dbl30(17,abcdefgh,A), atom_length(A,R)", "atom_concat/3 doubling (atom table, not the heap)"),
+    ("sub_chars", "dbl30(16,abcdefgh,A), atom_chars(A,Cs), length(P,200000), append(P,S,Cs), length(S,R)", "splitting a long string (partial-string traversal)"),
 ]
 
 # wrapper shapes: how the goal G (binding R) is embedded; E is bound to the caught formal.
@@ -185,5 +184,223 @@ def classify(res, ref):
     return "wrong_answer"
 
 
+def shape_of(rng, k, K):
+    return "plain"
+
+
+def consult_case(k, mode, n=6000):
+    """consult-time template: LF = consult_module_string under the fault plan."""
+    cid = "consult/%d%s" % (k, mode)
+    ls = setup_lines(cid)
+    ls.append("LF\t%s.f\t%d\t%s\tuser\t%s" % (cid, k, mode, esc(consult_prog(n))))
+    ls.append("Q\t%s.p\t1\t%s" % (cid, PROBE))
+    ls.append("L\t%s.a\tuser\t%s" % (cid, esc(consult_prog(50))))
+    ls.append("Q\t%s.b\t1\tcf30(17,X)." % cid)
+    return {"id": cid, "template": "consult", "shape": "consult", "k": k, "mode": mode, "impl": ls}
+
+
+CONSULT_EXPECT = "{X='g'(17,[17,18],\"abcdefgh\")} ;; ..."
+
+
+def s_cases():
+    """reference-interpreter tie: an explicit throw of the resource error at label j on the
+    implementation vs solveInj with the oracle at label j."""
+    prog = ("mkt30(0,_,[]).\nmkt30(N,J,[N|T]) :- N > 0, ( N =:= J -> throw(error(resource_error(memory), [])) ; true ), "
+            "M is N-1, mkt30(M,J,T).\n")
+    out = []
+    for j in range(0, 8):
+        cid = "S/%d" % j
+        ls = ["L\t%s.l\tuser\t%s" % (cid, esc(prog)),
+              "Q\t%s.q\t1\tcatch(mkt30(5,%d,L), error(E,_), true), X = done, ( var(L) -> LB = unbound ; LB = bound ), ( var(E) -> EB = none ; EB = E )." % (cid, j)]
+        out.append({"id": cid, "impl": ls, "model": ["S\t%s.m\t5\t%d" % (cid, j)], "j": j})
+    return out
+
+
+def judge_s(c, impl, model):
+    r = impl.get(c["id"] + ".q", "missing")
+    m = model.get(c["id"] + ".m", "missing")
+    mm = re.match(r"E=(\S+) L=(\S+) X=(\S+)", m)
+    if not mm:
+        return "model:%s" % m
+    e, l, x = mm.groups()
+    exp_e = "EB='none'" if e == "-" else "EB='resource_error'('memory')"
+    ok = (exp_e in r) and ("LB='%s'" % l in r) and ("X='%s'" % x in r)
+    return None if ok else "impl=%s model=%s" % (r[:200], m)
+
+
 def run(ctx):
-    raise NotImplementedError
+    tier, rng = ctx["tier"], ctx["rng"]
+    env = {"SV_TIMEOUT_MS": "60000"}
+    findings = []
+
+    rep = diff.replay_case(ctx)
+    if rep is not None:
+        for c in rep:
+            impl, model = diff.run_cases([c], impl_env=env, parallel=False)
+            for l in c["impl"]:
+                i = core.line_id(l)
+                if not re.search(r"\.u\d+$", i):
+                    print("impl", i, (impl.get(i) or "")[:300])
+            for i, v in model.items():
+                print("model", i, v)
+        return {"evaluations": len(rep), "distinct_nontrivial": 0, "rule": "replay", "samples": [],
+                "traces_validated_against_impl": 0, "disagreements_checked": 0, "findings": []}
+
+    names = [t[0] for t in TEMPLATES]
+    if tier == "quick":
+        sel = rng.sample(names, 7)
+        kcap = 3
+    else:
+        sel = names
+        kcap = 12
+
+    # ---- phase 1: counting runs (fresh machine each): K and the reference answer
+    ccases = [mk_case(n, "plain", 0, "p") for n in sel] + [consult_case(0, "p")]
+    impl, _ = diff.run_cases(ccases, impl_env=env)
+    for c in ccases:   # retry load flakes once, sequentially
+        if any((impl.get(core.line_id(l)) or "missing").startswith(("timeout", "missing")) or "timeout" in (impl.get(core.line_id(l)) or "") for l in c["impl"][-4:]):
+            impl.update(core.run_impl(c["impl"], env=env))
+    evaluations = 0
+    info = {}
+    no_growth = []
+    consult_K = 0
+    for c in ccases:
+        evaluations += 1
+        K, d, ref = parse_qf(impl.get(c["id"] + ".f"))
+        if c["template"] == "consult":
+            if K is None or ref != "loaded" or impl.get(c["id"] + ".b") != CONSULT_EXPECT:
+                findings.append(core.Finding("violation", {"template": "consult", "class": "unfaulted-run-broken"},
+                                             "unfaulted consult: %s / %s" % (ref, impl.get(c["id"] + ".b")), c))
+            else:
+                consult_K = K
+            continue
+        if K is None or not ref.startswith("{R=") or impl.get(c["id"] + ".p") != PROBE_EXPECT:
+            findings.append(core.Finding("violation", {"template": c["template"], "class": "unfaulted-run-broken"},
+                                         "unfaulted run: %s probe: %s" % ((ref or "")[:200], (impl.get(c["id"] + ".p") or "")[:200]), c))
+            continue
+        if K == 0:
+            no_growth.append(c["template"])
+        info[c["template"]] = (K, ref)
+
+    # ---- phase 2: every growth event k = 1..K (capped), both fault modes, wrapper shapes
+    cases = []
+    shapes = list(SHAPES)
+    for name in sel:
+        if name not in info:
+            continue
+        K, ref = info[name]
+        ks = list(range(1, K + 1))
+        if len(ks) > kcap:
+            ks = sorted(set([1, K] + rng.sample(ks, kcap - 2)))
+        for k in ks:
+            if tier == "quick":
+                combos = [("plain", "o" if (k + ctx["seed"]) % 2 else "p")]
+                if k == ks[0]:
+                    combos.append((rng.choice(shapes[1:]), "o"))
+            else:
+                combos = [("plain", "o"), ("plain", "p")]
+                if k in (ks[0], ks[-1]):
+                    combos += [(sh, "o") for sh in shapes[1:]] + [(rng.choice(shapes[1:]), "p")]
+            for sh, mode in combos:
+                c = mk_case(name, sh, k, mode)
+                c["K"] = K
+                c["ref"] = ref
+                c["model"] = ["P\t%s.m\t%s\t%d\t%d\t%s" % (c["id"], sh, K, k, mode)]
+                cases.append(c)
+    for k in (range(1, consult_K + 1) if tier != "quick" else range(1, min(consult_K, 2) + 1)):
+        for mode in ("o", "p") if tier != "quick" else ("o",):
+            cases.append(consult_case(k, mode))
+    cases += s_cases()
+    impl, model = diff.run_cases(cases, impl_env=env)
+
+    classes = {}
+    pairs = set()
+    agree = disagree = retried = 0
+    samples = []
+    for c in cases:
+        evaluations += 1
+        if "j" in c:
+            bad = judge_s(c, impl, model)
+            if bad:
+                disagree += 1
+                findings.append(core.Finding("disagreement", {"kind": "reference-interpreter", "j": str(c["j"])}, bad, c))
+            else:
+                agree += 1
+            continue
+        cid = c["id"]
+        g, d, r = parse_qf(impl.get(cid + ".f"))
+        flaky = lambda x: x is None or x.startswith(("timeout", "missing", "skipped")) or "| timeout" in x
+        if (flaky(impl.get(cid + ".f")) or flaky(impl.get(cid + ".p"))) and retried < 30:
+            retried += 1
+            impl.update(core.run_impl(c["impl"], env=env))
+            g, d, r = parse_qf(impl.get(cid + ".f"))
+        if c["template"] == "consult":
+            cls = "panic" if r.startswith("panic") else "abort" if r.startswith(("abort", "skipped")) else "timeout" if r.startswith("timeout") else "loaded" if r == "loaded" else "other"
+            classes["consult:" + cls] = classes.get("consult:" + cls, 0) + 1
+            pairs.add(("consult", c["k"], c["mode"]))
+            if cls != "loaded":
+                findings.append(core.Finding("violation", {"template": "consult", "class": cls, "mode": c["mode"]},
+                                             "consult with growth %d failing (%s): %s" % (c["k"], c["mode"], r[:300]), c))
+            elif impl.get(cid + ".p") != PROBE_EXPECT or impl.get(cid + ".b") != CONSULT_EXPECT:
+                findings.append(core.Finding("violation", {"template": "consult", "class": "followup-wrong", "mode": c["mode"]},
+                                             "after a consult with growth %d failing: probe %s, reload %s" % (
+                                                 c["k"], (impl.get(cid + ".p") or "")[:200], (impl.get(cid + ".b") or "")[:200]), c))
+            continue
+        ref = c["ref"]
+        if c["shape"] == "in_findall":
+            ref_cmp = None
+        else:
+            ref_cmp = ref
+        cls = classify(r, ref_cmp)
+        if c["shape"] == "in_findall" and cls == "wrong_answer" and d == 0:
+            cls = "absorbed"
+        classes[cls] = classes.get(cls, 0) + 1
+        pairs.add((c["template"], c["k"], c["mode"], c["shape"]))
+        if len(samples) < 6:
+            samples.append({"query": c["query"], "k": c["k"], "mode": c["mode"], "K": c["K"], "impl": (impl.get(cid + ".f") or "")[:160],
+                            "model": model.get(cid + ".m")})
+        if d == 0 and cls in ("absorbed", "wrong_answer") and r == ref:
+            # the k-th growth was never requested in this run (K varies slightly between runs)
+            classes["fault-not-reached"] = classes.get("fault-not-reached", 0) + 1
+            continue
+        sig = None
+        if cls not in ("caught", "absorbed"):
+            sig = {"template": c["template"], "class": cls, "mode": c["mode"], "shape": c["shape"]}
+            detail = "growth %d of %d failing (%s): %s" % (c["k"], c["K"], "persistently" if c["mode"] == "p" else "once", r[:300])
+        else:
+            pr = impl.get(cid + ".p")
+            g2, d2, r2 = parse_qf(impl.get(cid + ".a"))
+            if pr != PROBE_EXPECT:
+                sig = {"template": c["template"], "class": "probe-wrong", "mode": c["mode"], "shape": c["shape"]}
+                detail = "after recovery from growth %d failing the probe answers %s" % (c["k"], (pr or "missing")[:300])
+            elif c["shape"] != "in_findall" and r2 != ref:
+                sig = {"template": c["template"], "class": "rerun-wrong", "mode": c["mode"], "shape": c["shape"]}
+                detail = "after recovery from growth %d failing the template answers %s instead of %s" % (c["k"], (r2 or "missing")[:200], ref[:100])
+        if sig is not None:
+            findings.append(core.Finding("violation", sig, detail, c))
+            continue
+        m = model.get(cid + ".m", "")
+        mcls = m.split(" ")[0] if m else "?"
+        if mcls == "caught" and cls in ("caught", "absorbed"):
+            agree += 1
+        else:
+            disagree += 1
+            findings.append(core.Finding("disagreement", {"template": c["template"], "class": "model-" + mcls, "shape": c["shape"]},
+                                         "model predicts %s, implementation %s" % (m, cls), c))
+    return {
+        "evaluations": evaluations,
+        "distinct_nontrivial": len(pairs),
+        "rule": "one fresh machine per (template, growth event k, fault mode, wrapper shape); distinct = distinct such tuples actually run with the k-th growth of the query denied",
+        "samples": samples,
+        "traces_validated_against_impl": agree,
+        "disagreements_checked": disagree,
+        "findings": findings,
+        "outcome_classes": classes,
+        "templates": sel,
+        "growths_per_template": {n: info[n][0] for n in info},
+        "templates_without_heap_growth": no_growth,
+        "consult_growths": consult_K,
+        "pairs": len(pairs),
+        "retried": retried,
+        "exhaustive": False,
+    }
